@@ -136,9 +136,10 @@ func compareVersionParts(a, b []string) int {
 			bPart = "0" // Missing parts are treated as 0
 		}
 
-		// Compare parts using natural ordering
-		if aPart != bPart {
-			return naturalCompare(aPart, bPart)
+		// Compare parts using natural ordering; parts that differ only in spelling
+		// (01 and 1) are equal and the comparison continues with the next part
+		if result := naturalCompare(aPart, bPart); result != 0 {
+			return result
 		}
 	}
 
